@@ -31,7 +31,7 @@ func (c *recCache) note(key interface{}) {
 		c.ctxs = append(c.ctxs, fmt.Sprintf("?%T", key))
 	}
 }
-func (c *recCache) Add(key, value interface{})               { c.note(key) }
+func (c *recCache) Add(key, value interface{})              { c.note(key) }
 func (c *recCache) Get(key interface{}) (interface{}, bool) { c.note(key); return nil, false }
 
 type recRT struct{ paths, hosts []string }
